@@ -47,6 +47,12 @@ func (a *verifCapsLimit) Do(c *verifCapsCtx, p int, mode string) {
 // may end in ErrTimeout.  (The long one must stay finite: Cond.Signal is lossy, so a waiter whose
 // wake-up was lost stays parked although a permit is free and leaves only by its timer -- which
 // the property does not forbid, see TimeoutLimitImpl.tla.)
+// "park" (schedules of SemGenTimed) is the long borrow again; what differs is the clock: the
+// remaining time a woken waiter computes comes from timex.Now/Since, i.e. from the engine's
+// verifCapsClock (hook H1), so "woken in time / exactly at / after the deadline" is the
+// schedule's choice and not the machine's.  The timer that ends the wait is a real one.
+const verifCapsParkTimeout = 250 * time.Millisecond
+
 type verifCapsTLimit struct{ l TimeoutLimit }
 
 func (a *verifCapsTLimit) Kind() string { return "tlimit" }
@@ -65,9 +71,9 @@ func (a *verifCapsTLimit) Do(c *verifCapsCtx, p int, mode string) {
 			c.Refused(p, 0)
 			return
 		}
-	case "block":
+	case "block", "park":
 		c.AcqStart(p, "timeout")
-		if err := a.l.Borrow(250 * time.Millisecond); err != nil {
+		if err := a.l.Borrow(verifCapsParkTimeout); err != nil {
 			c.Refused(p, 0)
 			return
 		}
@@ -113,7 +119,10 @@ func verifCapsMake(c *verifCapsCtx, kind string, n int, age int) (verifCapsAdapt
 	case "limit":
 		return &verifCapsLimit{l: NewLimit(n)}, nil, nil
 	case "tlimit":
-		return &verifCapsTLimit{l: NewTimeoutLimit(n)}, nil, nil
+		c.clk = verifCapsNewClock(c, verifCapsParkTimeout)
+		timex.VerifNow = c.clk.Now
+		c.advance = func(d int) { c.clk.advance(time.Duration(d) * c.clk.unit) }
+		return &verifCapsTLimit{l: NewTimeoutLimit(n)}, nil, func() { timex.VerifNow = nil }
 	case "pool":
 		var clock, nextRes, ticks int64
 		timex.VerifNow = func() time.Duration { return time.Duration(atomic.LoadInt64(&clock)) * time.Second }
@@ -124,10 +133,13 @@ func verifCapsMake(c *verifCapsCtx, kind string, n int, age int) (verifCapsAdapt
 		pl := NewPool(n, func() any {
 			r := int(atomic.AddInt64(&nextRes, 1))
 			c.Emit(verifEv{"e": "create", "r": r})
+			c.Callback()
 			return r
 		}, func(x any) {
 			c.Emit(verifEv{"e": "destroy", "r": x.(int)})
+			c.Callback()
 		}, opts...)
+		c.advance = func(d int) { atomic.AddInt64(&clock, int64(d)) }
 		var tick func()
 		if age > 0 {
 			// the clock moves between steps: 0..2 units, so that idle resources sit before, on and
